@@ -173,13 +173,13 @@ pub fn pattern_ok(p: &P, mv: Mv) -> bool {
         return has(knight_att(mv.src), mv.dst);
     }
     if piece == BISHOP {
-        return has(bishop_att(mv.src, o), mv.dst);
+        return slider_reaches(mv.src, mv.dst, o, true, false);
     }
     if piece == ROOK {
-        return has(rook_att(mv.src, o), mv.dst);
+        return slider_reaches(mv.src, mv.dst, o, false, true);
     }
     if piece == QUEEN {
-        return has(queen_att(mv.src, o), mv.dst);
+        return slider_reaches(mv.src, mv.dst, o, true, true);
     }
     // king
     if has(king_att(mv.src), mv.dst) {
@@ -453,4 +453,17 @@ pub fn leaper_checkers_spec(p: &P) -> u64 {
     let them = p.col[(1 - us) as usize];
     let k = king_of(p, us);
     (knight_att(k) & p.pcs[KNIGHT as usize] & them) | (pawn_att(k, us) & p.pcs[PAWN as usize] & them)
+}
+
+/// single-walk form of "a slider of the given kind on src reaches d": aligned along a direction the kind moves in
+/// and nothing strictly between. Equal to membership of d in rook_att / bishop_att / queen_att (cross-checked
+/// natively in spec/selfcheck.rs); used where only one destination is queried.
+pub fn slider_reaches(src: u8, d: u8, o: u64, diagonal_ok: bool, straight_ok: bool) -> bool {
+    match aligned_dir(src, d) {
+        None => false,
+        Some((df, dr)) => {
+            let diagonal = df != 0 && dr != 0;
+            ((diagonal && diagonal_ok) || (!diagonal && straight_ok)) && between_spec(src, d) & o == 0
+        }
+    }
 }
